@@ -1,6 +1,321 @@
 import SdbModel.Model.Art
 import SdbModel.Model.PMap
 import SdbModel.Generated.ArtParams
-/-! # C11 — theorems under construction (see DESIGN.md section 4) -/
+import SdbModel.Lemmas.ArtRefine
+import SdbModel.Lemmas.ArtShape
+
+/-!
+# C11 — part.Tree is a correct, persistent ordered map
+
+> part.Tree and its transactions behave as an ordered map from byte strings:
+> Insert, Modify and Delete return the previous value, and Get, Len, Prefix,
+> LowerBound and full iteration return exactly the matching entries in bytewise
+> key order, for any keys including the empty key, keys that are prefixes of
+> each other and fan-outs that force every node size.  Every Tree value,
+> transaction clone and iterator is persistent: it keeps returning the same
+> contents whatever is done later through transactions derived from it,
+> committed or abandoned.
+
+Theorems over `Model.Art` (the adaptive radix tree with path compression, node
+kinds 4/16/48/256, promotion, demotion and merge-with-single-child), for EVERY
+`ArtParams`, every key (`List Nat`, the empty key included, no bound on the
+bytes), every value, every merge function and every transaction state `St`.
+The tree is refined to the reference ordered map "strictly `cmpL`-ascending
+association list" (`Art.sinsert` / `Art.sdelete` / `Art.look` / `List.filter`):
+`allRoot` (full iteration) of the result of each operation is the reference
+operation applied to `allRoot` of the argument.  The hypothesis `Art.TxnWF`
+(root well-formed for the empty path: stored keys equal their paths, children
+strictly ascending, child prefixes start with their byte; `size` = number of
+entries) is proved to hold for the empty tree and to be preserved by every
+operation, hence for every reachable transaction and tree
+(`C11_reachable_refines_reference`).  A second invariant, `Art.RootShape` (every
+inner node has a leaf or at least two children, and its kind 4/16/48/256 is the
+size class of its fan-out), is proved for every reachable tree under the
+decidable side condition `P = defaultParams`, which the constants regenerated
+from the source satisfy (`C11_generated_params_are_default`).  Persistence of
+old `Tree`/`Txn` values is, in this purely functional model, the fact that
+operations return new values; the aliasing half (in-place mutation only of
+nodes owned by the transaction) is the subject of `Model.Cow`, not of these
+theorems.  Watch channels are threaded through the model but are not the
+subject of C11; every theorem holds for all watch / transaction-id states.
+-/
 namespace Sdb
+open Art
+
+/-! ## reads: Get, full iteration, Len, Prefix, LowerBound -/
+
+/-- **Get** is the lookup in the iterated contents (any root watch `w`) -/
+theorem C11_get_is_lookup (root : Option Node) (h : RootWF root) (w : Nat) (k : List Nat) :
+    (getRoot root w k).1 = look (allRoot root) k :=
+  getRoot_look root h w k
+
+/-- **full iteration is in strictly ascending bytewise key order** (so keys are unique) -/
+theorem C11_all_strictly_ascending (root : Option Node) (h : RootWF root) :
+    (allRoot root).Pairwise (fun a b => cmpL a.1 b.1 = .lt) :=
+  allRoot_sorted root h
+
+/-- **full iteration yields exactly the bindings `Get` finds**: the tree IS that sorted map -/
+theorem C11_all_iff_get (root : Option Node) (h : RootWF root) (w : Nat) (k : List Nat) (v : Nat) :
+    (k, v) ∈ allRoot root ↔ (getRoot root w k).1 = some v := by
+  rw [getRoot_look root h w k]
+  exact mem_iff_look _ (allRoot_sorted root h) k v
+
+/-- **Len** is the number of iterated entries (part of the invariant) -/
+theorem C11_len_is_length (x : Txn) (h : TxnWF x) : x.size = (allRoot x.root).length := h.2
+
+/-- **Prefix** returns exactly the entries whose key has the prefix, in iteration order -/
+theorem C11_prefix_is_filter (root : Option Node) (h : RootWF root) (w : Nat) (p : List Nat) :
+    (prefixRoot root w p).1 = (allRoot root).filter (fun e => hasPrefix e.1 p) := by
+  cases root with
+  | none => rfl
+  | some r => exact prefixNode_eq [] r h w p
+
+/-- **LowerBound** returns exactly the entries with key ≥ `k`, in iteration order -/
+theorem C11_lowerbound_is_filter (root : Option Node) (h : RootWF root) (k : List Nat) :
+    lbRoot root k = (allRoot root).filter (fun e => decide (cmpL e.1 k ≠ .lt)) := by
+  cases root with
+  | none => rfl
+  | some r => exact lbNode_eq [] r h k
+
+/-! ## Insert / Modify -/
+
+/-- the invariant is preserved by `Insert`/`Modify` -/
+theorem C11_insert_preserves_wf (P : ArtParams) (x : Txn) (h : TxnWF x) (k : List Nat) (v : Nat)
+    (mod : Option (Nat → Nat → Nat)) : TxnWF (x.insert P k v mod).1 :=
+  (Txn_insert_spec P x k v mod h).1
+
+/-- **Insert/Modify return the previous value** (what `Get` returned before), and the
+    stored value is `v`, or `mod old v` for Modify on an existing key -/
+theorem C11_insert_returns_previous (P : ArtParams) (x : Txn) (h : TxnWF x) (w : Nat) (k : List Nat) (v : Nat)
+    (mod : Option (Nat → Nat → Nat)) :
+    (x.insert P k v mod).2.1 = (getRoot x.root w k).1 ∧
+    (x.insert P k v mod).2.2.1 = mergedVal mod (getRoot x.root w k).1 v := by
+  obtain ⟨_, h2, h3, _⟩ := Txn_insert_spec P x k v mod h
+  rw [getRoot_look x.root h.1 w k, ← h2]
+  exact ⟨rfl, h3⟩
+
+/-- **the contents after Insert/Modify are the reference insertion** -/
+theorem C11_insert_refines_sinsert (P : ArtParams) (x : Txn) (h : TxnWF x) (k : List Nat) (v : Nat)
+    (mod : Option (Nat → Nat → Nat)) :
+    allRoot (x.insert P k v mod).1.root =
+      sinsert (allRoot x.root) k (mergedVal mod (look (allRoot x.root) k) v) := by
+  obtain ⟨_, h2, h3, h4⟩ := Txn_insert_spec P x k v mod h
+  rw [h4, h3, h2]
+
+/-- **get after insert** -/
+theorem C11_get_after_insert (P : ArtParams) (x : Txn) (h : TxnWF x) (w w' : Nat) (k k' : List Nat) (v : Nat)
+    (mod : Option (Nat → Nat → Nat)) :
+    (getRoot (x.insert P k v mod).1.root w' k').1 =
+      if k' = k then some (mergedVal mod (getRoot x.root w k).1 v) else (getRoot x.root w k').1 := by
+  rw [getRoot_look _ (C11_insert_preserves_wf P x h k v mod).1, C11_insert_refines_sinsert P x h,
+    look_sinsert, getRoot_look x.root h.1 w k, getRoot_look x.root h.1 w k']
+
+/-- **Len grows by one iff the key was absent** -/
+theorem C11_insert_size (P : ArtParams) (x : Txn) (k : List Nat) (v : Nat) (mod : Option (Nat → Nat → Nat)) (w : Nat)
+    (h : TxnWF x) :
+    (x.insert P k v mod).1.size = if (getRoot x.root w k).1 = none then x.size + 1 else x.size := by
+  have h1 := (C11_insert_preserves_wf P x h k v mod).2
+  rw [h1, C11_insert_refines_sinsert P x h, length_sinsert _ (allRoot_sorted _ h.1), getRoot_look x.root h.1 w k, h.2]
+  cases look (allRoot x.root) k <;> simp
+
+/-! ## Delete -/
+
+theorem C11_delete_preserves_wf (P : ArtParams) (x : Txn) (h : TxnWF x) (k : List Nat) : TxnWF (x.delete P k).1 :=
+  (Txn_delete_spec P x k h).1
+
+/-- **Delete returns the previous value** -/
+theorem C11_delete_returns_previous (P : ArtParams) (x : Txn) (h : TxnWF x) (w : Nat) (k : List Nat) :
+    (x.delete P k).2 = (getRoot x.root w k).1 := by
+  rw [getRoot_look x.root h.1 w k]; exact (Txn_delete_spec P x k h).2.1
+
+/-- **the contents after Delete are the reference deletion** -/
+theorem C11_delete_refines_sdelete (P : ArtParams) (x : Txn) (h : TxnWF x) (k : List Nat) :
+    allRoot (x.delete P k).1.root = sdelete (allRoot x.root) k :=
+  (Txn_delete_spec P x k h).2.2.1
+
+/-- **get after delete** -/
+theorem C11_get_after_delete (P : ArtParams) (x : Txn) (h : TxnWF x) (w w' : Nat) (k k' : List Nat) :
+    (getRoot (x.delete P k).1.root w' k').1 = if k' = k then none else (getRoot x.root w k').1 := by
+  rw [getRoot_look _ (C11_delete_preserves_wf P x h k).1, C11_delete_refines_sdelete P x h, look_sdelete,
+    getRoot_look x.root h.1 w k']
+
+/-- **deleting an absent key changes nothing at all** (the very same transaction is returned) -/
+theorem C11_delete_absent_unchanged (P : ArtParams) (x : Txn) (h : TxnWF x) (w : Nat) (k : List Nat)
+    (habs : (getRoot x.root w k).1 = none) : x.delete P k = (x, none) := by
+  have h2 := C11_delete_returns_previous P x h w k
+  rw [habs] at h2
+  have h3 := (Txn_delete_spec P x k h).2.2.2 h2
+  exact Prod.ext h3 h2
+
+/-- **Len drops by one iff the key was present** -/
+theorem C11_delete_size (P : ArtParams) (x : Txn) (h : TxnWF x) (w : Nat) (k : List Nat) :
+    (x.delete P k).1.size = if (getRoot x.root w k).1 = none then x.size else x.size - 1 := by
+  have h1 := (C11_delete_preserves_wf P x h k).2
+  rw [h1, C11_delete_refines_sdelete P x h, length_sdelete _ (allRoot_sorted _ h.1), getRoot_look x.root h.1 w k, h.2]
+  cases look (allRoot x.root) k <;> simp
+
+/-! ## every reachable tree: operation sequences against the reference map -/
+
+/-- the operations of the API that produce new transactions / trees -/
+inductive Art.Op where
+  /-- Insert (`mod = none`) / Modify -/
+  | insert (k : List Nat) (v : Nat) (mod : Option (Nat → Nat → Nat))
+  | delete (k : List Nat)
+  /-- Commit, then open a new transaction on the committed tree -/
+  | commit (wd wd' : World)
+  /-- Clone the transaction into a tree and continue in a transaction on that tree -/
+  | clone (wd : World)
+  /-- Notify (closes watch channels, leaves the contents alone) -/
+  | notify (wd : World)
+
+def Art.stepTxn (P : ArtParams) (x : Txn) : Art.Op → Txn
+  | .insert k v mod => (x.insert P k v mod).1
+  | .delete k => (x.delete P k).1
+  | .commit wd wd' => (x.commit wd).2.1.txn wd'
+  | .clone wd => x.clone.2.txn wd
+  | .notify wd => (x.notify wd).1
+
+/-- the same operation on the reference sorted association list -/
+def Art.stepSpec (l : List (List Nat × Nat)) : Art.Op → List (List Nat × Nat)
+  | .insert k v mod => sinsert l k (mergedVal mod (look l k) v)
+  | .delete k => sdelete l k
+  | _ => l
+
+/-- the empty tree satisfies the invariant -/
+theorem C11_empty_wf (wd wd' : World) (rootOnly : Bool) : TxnWF ((newTree wd rootOnly).2.txn wd') :=
+  ⟨trivial, rfl⟩
+
+/-- one step preserves the invariant and commutes with the reference step -/
+theorem C11_step_refines (P : ArtParams) (x : Txn) (h : TxnWF x) (op : Art.Op) :
+    TxnWF (stepTxn P x op) ∧ allRoot (stepTxn P x op).root = stepSpec (allRoot x.root) op := by
+  cases op with
+  | insert k v mod => exact ⟨C11_insert_preserves_wf P x h k v mod, C11_insert_refines_sinsert P x h k v mod⟩
+  | delete k => exact ⟨C11_delete_preserves_wf P x h k, C11_delete_refines_sdelete P x h k⟩
+  | commit wd wd' => exact ⟨h, rfl⟩
+  | clone wd => exact ⟨h, rfl⟩
+  | notify wd => exact ⟨h, rfl⟩
+
+/-- **any operation sequence from any well-formed transaction** keeps the invariant and
+    yields the contents the reference map yields -/
+theorem C11_run_refines_reference (P : ArtParams) (ops : List Art.Op) (x : Txn) (h : TxnWF x) :
+    TxnWF (ops.foldl (stepTxn P) x) ∧
+    allRoot (ops.foldl (stepTxn P) x).root = ops.foldl stepSpec (allRoot x.root) := by
+  induction ops generalizing x with
+  | nil => exact ⟨h, rfl⟩
+  | cons op rest ih =>
+    obtain ⟨h1, h2⟩ := C11_step_refines P x h op
+    have := ih (stepTxn P x op) h1
+    simp only [List.foldl_cons]
+    rw [← h2]; exact this
+
+/-- **every reachable tree**: whatever inserts, modifies, deletes, commits, clones and
+    notifies are applied starting from `New()`, the invariant holds and full iteration
+    equals the reference map built by the same operations from the empty list -/
+theorem C11_reachable_refines_reference (P : ArtParams) (wd wd' : World) (rootOnly : Bool) (ops : List Art.Op) :
+    TxnWF (ops.foldl (stepTxn P) ((newTree wd rootOnly).2.txn wd')) ∧
+    allRoot (ops.foldl (stepTxn P) ((newTree wd rootOnly).2.txn wd')).root = ops.foldl stepSpec [] :=
+  C11_run_refines_reference P ops _ (C11_empty_wf wd wd' rootOnly)
+
+/-! ## persistence: trees, clones and the transactions derived from them -/
+
+/-- Commit and Clone publish exactly the transaction's contents and `Len`, a transaction
+    opened on a tree starts from exactly the tree's contents, and the invariant travels along -/
+theorem C11_commit_clone_txn_keep_contents (x : Txn) (t : Tree) (wd wd' : World) :
+    allRoot (x.commit wd).2.1.root = allRoot x.root ∧ (x.commit wd).2.1.size = x.size ∧
+    allRoot x.clone.2.root = allRoot x.root ∧ x.clone.2.size = x.size ∧
+    allRoot (x.commit wd).1.root = allRoot x.root ∧ allRoot x.clone.1.root = allRoot x.root ∧
+    allRoot (t.txn wd').root = allRoot t.root ∧ (t.txn wd').size = t.size ∧
+    (TxnWF x → TreeWF (x.commit wd).2.1 ∧ TreeWF x.clone.2) ∧ (TreeWF t → TxnWF (t.txn wd')) :=
+  ⟨rfl, rfl, rfl, rfl, rfl, rfl, rfl, rfl, fun h => ⟨h, h⟩, fun h => h⟩
+
+/-- **a snapshot keeps its contents**: for a tree `t` and ANY later activity in a transaction
+    derived from it (committed or abandoned), the transaction sees the reference operations
+    applied to the snapshot's contents, while every read of the snapshot `t` itself is a
+    function of `t` alone (Lean values are immutable: this half is the model's purity) -/
+theorem C11_snapshot_persistent (P : ArtParams) (t : Tree) (h : TreeWF t) (wd : World) (ops : List Art.Op) :
+    allRoot (ops.foldl (stepTxn P) (t.txn wd)).root = ops.foldl stepSpec (allRoot t.root) ∧
+    TxnWF (ops.foldl (stepTxn P) (t.txn wd)) :=
+  ⟨(C11_run_refines_reference P ops (t.txn wd) h).2, (C11_run_refines_reference P ops (t.txn wd) h).1⟩
+
+/-! ## shape: node kinds, promotion / demotion, no useless nodes
+
+The theorems of this section are about the representation, for the node-size
+constants of the implementation (`P = defaultParams`, which is what
+`tools/extract` regenerates into `Gen.artParams`). -/
+
+/-- the constants extracted from the source are the ones the shape theorems assume -/
+theorem C11_generated_params_are_default : Gen.artParams = defaultParams := by decide
+
+/-- one step preserves the shape invariant: every inner node has a leaf or ≥ 2 children
+    and its kind is the size class of its fan-out (4: ≤ 4, 16: 5..16, 48: 17..48, 256: ≥ 49) -/
+theorem C11_step_preserves_shape (P : ArtParams) (hP : P = defaultParams) (x : Txn) (h : RootShape x.root)
+    (op : Art.Op) : RootShape (stepTxn P x op).root := by
+  cases op with
+  | insert k v mod => exact Txn_insert_shape P hP x k v mod h
+  | delete k => exact Txn_delete_shape P hP x k h
+  | commit wd wd' => exact h
+  | clone wd => exact h
+  | notify wd => exact h
+
+/-- **every reachable tree has the shape invariant**, whatever fan-outs the keys force -/
+theorem C11_reachable_shape (P : ArtParams) (hP : P = defaultParams) (wd wd' : World) (rootOnly : Bool)
+    (ops : List Art.Op) : RootShape (ops.foldl (stepTxn P) ((newTree wd rootOnly).2.txn wd')).root := by
+  suffices ∀ x : Txn, RootShape x.root → RootShape (ops.foldl (stepTxn P) x).root from this _ trivial
+  induction ops with
+  | nil => exact fun _ h => h
+  | cons op rest ih => exact fun x h => ih _ (C11_step_preserves_shape P hP x h op)
+
+/-- the empty map is represented by the nil root only (deleting everything gives back `New()`) -/
+theorem C11_root_nil_iff_empty (root : Option Node) (h : RootShape root) : root = none ↔ allRoot root = [] :=
+  root_none_iff_empty root h
+
+/-- the node that `removeChild` replaces by its single remaining child is always a node4
+    (so the implementation's "expected node4" check cannot fire), and more generally a
+    node's kind is determined by its fan-out -/
+theorem C11_kind_matches_fanout (kind : Nat) (pfx : List Nat) (lf : Option LeafD) (kids : Kids) (w t : Nat)
+    (h : ShapeN (.inner kind pfx lf kids w t)) :
+    (kids.size ≤ 4 → kind = 4) ∧ (5 ≤ kids.size ∧ kids.size ≤ 16 → kind = 16) ∧
+    (17 ≤ kids.size ∧ kids.size ≤ 48 → kind = 48) ∧ (49 ≤ kids.size → kind = 256) ∧
+    (lf = none → 2 ≤ kids.size) := by
+  simp only [ShapeN, KindOK] at h
+  obtain ⟨hk, hc, _⟩ := h
+  refine ⟨by omega, by omega, by omega, by omega, ?_⟩
+  intro hl; subst hl; simpa using hc
+
+/-! ## non-vacuity: a concrete reachable tree (empty key, keys that are prefixes of each
+    other, a fork, a replaced value, a deletion that merges a node with its single child) -/
+
+/-- the sample run -/
+def Art.sampleOps : List Art.Op :=
+  [.insert [1, 2] 10 none, .insert [] 20 none, .insert [1] 30 none, .insert [1, 2, 3] 40 none,
+   .insert [1, 7] 50 none, .commit {} {}, .insert [1, 2] 11 (some fun o n => o + n), .delete [1], .delete [9]]
+
+example :
+    allRoot (sampleOps.foldl (stepTxn Gen.artParams) ((newTree {} false).2.txn {})).root =
+      [([], 20), ([1, 2], 21), ([1, 2, 3], 40), ([1, 7], 50)] := by decide
+
+example : TxnWF (sampleOps.foldl (stepTxn Gen.artParams) ((newTree {} false).2.txn {})) :=
+  (C11_reachable_refines_reference Gen.artParams {} {} false sampleOps).1
+
+example : RootShape (sampleOps.foldl (stepTxn Gen.artParams) ((newTree {} false).2.txn {})).root :=
+  C11_reachable_shape Gen.artParams C11_generated_params_are_default {} {} false sampleOps
+
+/-! fan-outs that force every node size: `n` children below one node -/
+
+def Art.rootKind : Option Node → Nat
+  | some (.inner k _ _ _ _ _) => k
+  | _ => 0
+
+def Art.fanOps (n : Nat) : List Art.Op := (List.range n).map fun i => .insert [7, i] i none
+
+def Art.fanRoot (ops : List Art.Op) : Option Node :=
+  (ops.foldl (stepTxn Gen.artParams) ((newTree {} false).2.txn {})).root
+
+example : rootKind (fanRoot (fanOps 4)) = 4 ∧ rootKind (fanRoot (fanOps 5)) = 16 ∧
+    rootKind (fanRoot (fanOps 17)) = 48 ∧ rootKind (fanRoot (fanOps 49)) = 256 ∧
+    rootKind (fanRoot (fanOps 49 ++ [Art.Op.delete [7, 0]])) = 48 ∧
+    rootKind (fanRoot (fanOps 17 ++ [Art.Op.delete [7, 3]])) = 16 ∧
+    rootKind (fanRoot (fanOps 5 ++ [Art.Op.delete [7, 4]])) = 4 ∧
+    (allRoot (fanRoot (fanOps 49 ++ [Art.Op.delete [7, 0]]))).length = 48 := by decide
+
 end Sdb
